@@ -140,7 +140,20 @@ def tlc_trace(spec, cfg, trace, metadir, timeout=1800, xmx="3g", extra_env=None)
         raise ToolError("TLC timed out on " + trace)
     out = p.stdout
     fails, consumed, total = [], None, None
+    # TLC wraps long tuples over several lines: re-join them
+    joined, buf = [], None
     for line in out.splitlines():
+        if buf is not None:
+            buf += " " + line.strip()
+            if line.rstrip().endswith(">>"):
+                joined.append(buf.replace("<< ", "<<").replace(" >>", ">>"))
+                buf = None
+            continue
+        if line.startswith('<< "FAIL"') and not line.rstrip().endswith(">>"):
+            buf = line.strip()
+            continue
+        joined.append(line)
+    for line in joined:
         m = FAIL_RE.match(line)
         if m:
             fails.append((m.group(1), int(m.group(2)), m.group(3), m.group(4) or ""))
